@@ -38,8 +38,9 @@ import (
 
 var sharedPrograms = []struct{ name, src string }{
 	{"reads", `
-load("m", "L", "D", "S", "C", "F", "BM", "K", "F10")
+load("m", "L", "D", "S", "C", "F", "BM", "K", "F10", "N3")
 t(0, F10(1, j = 2, zz = 3))
+t(9, N3())
 t(1, [x for x in L if x != 1])
 t(2, sorted(S, key = K))
 t(3, (C(3), F(2), BM("two")))
